@@ -113,7 +113,7 @@ theorem releaseStep_ev (h : Evolves P N a s.store) (id : Nat) : Evolves P N a (r
     by_cases hc : (s.stream id).isCounted = true
     · simp only [hc, if_true]
       simp only [crp_store]
-      refine Evolves.remove (by ev) _ (fun st hg => ?_)
+      refine Evolves.remove (by ev) _ (fun _ st hg => ?_)
       rw [Store.get?_mod' _ _ _ (by intro; rfl), if_pos rfl] at hg
       cases hg0 : s.store.get? id with
       | none => rw [hg0] at hg; cases hg
@@ -123,7 +123,7 @@ theorem releaseStep_ev (h : Evolves P N a s.store) (id : Nat) : Evolves P N a (r
         have := isReleased_removable hrel
         subst hg; exact this
     · simp only [hc, Bool.false_eq_true, if_false]
-      refine Evolves.remove h _ (fun st hg => ?_)
+      refine Evolves.remove h _ (fun _ st hg => ?_)
       rw [Store.getD'_of_get? hg] at hrel
       exact isReleased_removable hrel
   · simp only [hrel, Bool.false_eq_true, if_false]; exact h
